@@ -4,7 +4,7 @@ from __future__ import annotations
 import ast as _ast
 import struct as _struct
 
-from ..common import mro_methods, nshow, outer_field, paths
+from ..common import conds_at, mro_methods, nshow, outer_field, paths
 from ..effects import Effects
 from ..expr import C, SELF, canon, norm, show, strip_epochs, walk
 from ..model import AnalysisError
@@ -119,6 +119,7 @@ def check(prog, rep, tier):
     # ---------------------------------------------------------------- (b) slot offset
     K = prog.cls(CTX)
     foot = None
+    off = whence = wr = None
     for p in ups:
         for k, e in io_events(p):
             if k == "file.seek":
@@ -131,8 +132,10 @@ def check(prog, rep, tier):
     from .C05 import emissions, footer_of
     _, em = emissions(prog, "BloomFilter")
     ft = footer_of(em)
-    if foot is None or ft is None:
-        raise AnalysisError("C11: __update or the export footer could not be located")
+    if ft is None:
+        raise AnalysisError("C11: the export footer could not be located")
+    if foot is None:
+        foot = (None, None, None)
     off, whence, wr = foot
     slot = [i for i, a in enumerate(ft[2]) if a == ("f", SELF, "_els_added", 0)]
     if len(slot) != 1:
@@ -224,6 +227,44 @@ def check(prog, rep, tier):
         if sites == 0:
             rep.bad("C11.path-provenance", f"{CTX}.{fname}", "no file access",
                     f"{fname} no longer opens / copies the backing file at all: the filter is not backed by (or exported to) a file", f.where())
+    # ---------------------------------------------------------------- (e2) nothing moves another inode onto the backing path
+    # copyfile refuses source == destination (SameFileError); rename / replace / unlink do not: with the mapping and handle still
+    # on the old inode, every later add and the close would go to an orphaned file.  Such a call is accepted only under a guard
+    # that compares the backing path with the RESOLVED destination.
+    badmv = None
+    nmv = 0
+    for f in mro_methods(prog, CTX):
+        for p in paths(prog, CTX, f):
+            for e in p.events:
+                if e.kind != "call" or e.d.get("inlined"):
+                    continue
+                fn = e.d.get("fn")
+                hit = None
+                if fn is not None and fn[0] == "ext" and fn[1] in ("os", "shutil") and fn[-1] in ("replace", "rename", "renames", "remove", "unlink", "move", "truncate", "rmtree", "link", "symlink"):
+                    hit = f"{fn[1]}.{fn[-1]}"
+                elif e.d.get("recv") is not None and e.target is None and (e.name in ("rename", "unlink", "rmdir", "write_bytes", "write_text", "symlink_to", "hardlink_to")
+                                                                              or (e.name == "replace" and len(e.args) == 1)):
+                    hit = f".{e.name}"
+                if hit is None:
+                    continue
+                nmv += 1
+                fpth = ("f", SELF, "_filepath", 0)
+                guarded = False
+                for c in conds_at(p, e):
+                    c = strip_epochs(c)
+                    if c[0] == "cmp" and c[1] == "!=" and fpth in (c[2], c[3]):
+                        other = c[3] if c[2] == fpth else c[2]
+                        if any((n[0] == "call" and n[1][0] == "m" and n[1][2] == "resolve") or (n[0] == "ret" and n[1].endswith("resolve_path")) for n in walk(other)):
+                            guarded = True
+                if not guarded:
+                    badmv = (f, e, hit)
+    if badmv:
+        rep.bad("C11.path-provenance", f"{CTX}.{badmv[0].src_name}", f"{badmv[2]} on a path that may be the backing file",
+                f"{badmv[0].src_name} reaches {badmv[2]}({', '.join(nshow(a) for a in badmv[1].args)}) without a guard comparing the backing path with the resolved "
+                "destination: a different spelling of the backing file's own name swaps a new inode in under the path while the mapping stays on the old, "
+                "unlinked one - later adds and the close no longer reach the file", badmv[1].where())
+    else:
+        rep.ok("C11.path-provenance", f"{CTX}: no rename/replace/unlink reachable without a resolved own-file guard ({nmv} such call(s))")
     # ---------------------------------------------------------------- (f) reload
     ld = prog.method(CTX, "_load")
     okr = True
@@ -254,6 +295,13 @@ def _decorate(fname, deco_src):
         return False
     return edit
 MUTANTS = [
+    Mutant("export: copy to a temporary name and os.replace it onto the target (own file not excluded by resolved path)", _B,
+           replace_stmt("BloomFilterOnDisk", "export", "copyfile(self._filepath, str(file))",
+                        "copyfile(self._filepath, str(file) + '.tmp')\nos.replace(str(file) + '.tmp', str(file))"), rule="C11.path-provenance"),
+    Mutant("export: temporary + os.replace under a guard on the resolved destination (still never the own file)", _B,
+           replace_stmt("BloomFilterOnDisk", "export", "if file and Path(file) != self._filepath",
+                        "if file and resolve_path(file) != self._filepath:\n    copyfile(self._filepath, str(file) + '.tmp')\n    os.replace(str(file) + '.tmp', str(file))"),
+           expect="silent"),
     Mutant("__update: delete self._bloom.flush()", _B, del_stmt("BloomFilterOnDisk", "__update", "self._bloom.flush()"), rule="C11.write-order"),
     Mutant("close: delete self.__update()", _B, del_stmt("BloomFilterOnDisk", "close", "self.__update()"), rule="C11.write-order"),
     Mutant("add_alt: __update before the bit stores", _B, replace_stmt("BloomFilterOnDisk", "add_alt", "super().add_alt(hashes)", "self.__update()\nsuper().add_alt(hashes)"), rule="C11.write-order"),
